@@ -102,6 +102,7 @@ fn main() {
         Some("replay") => pool::cmd_replay(&args[2..]),
         Some("selftest") => pool::cmd_selftest(&args[2..]),
         Some("gen") => pool::cmd_gen(&args[2..]),
+        Some("handle17") => fam_c::handle17_main(),
         Some("victim") => fam_a::victim_main(args.get(2).map(|s| s.as_str()).unwrap_or("")),
         _ => {
             eprintln!("usage: tcsim check <ID> <quick|thorough> | replay <file> | selftest determinism [ID…]");
